@@ -208,9 +208,14 @@ type Env struct {
 	blockOpen bool
 	writeBlk  func()
 
-	hubKey    *sdk.KVStoreKey
-	bankKey   *sdk.KVStoreKey
-	oracleKey *sdk.KVStoreKey
+	hubKey     *sdk.KVStoreKey
+	bankKey    *sdk.KVStoreKey
+	oracleKey  *sdk.KVStoreKey
+	keyAcc     *sdk.KVStoreKey
+	keyParams  *sdk.KVStoreKey
+	tkeyParams *sdk.TransientStoreKey
+	pk         paramskeeper.Keeper
+	replica    int // 0: the run that is compared with the model; 1, 2: the determinism replicas
 
 	cdc           codec.Codec
 	acc           authkeeper.AccountKeeper
@@ -272,38 +277,11 @@ func NewEnv(realOracle bool) *Env {
 	e.rootCtx = sdk.NewContext(ms, tmproto.Header{Height: e.height, Time: time.Unix(e.unixTime, 0).UTC()}, false, log.NewNopLogger())
 	e.ctx = e.rootCtx
 
+	e.keyAcc, e.keyParams, e.tkeyParams = keyAcc, keyParams, tkeyParams
 	e.cdc = makeCodec()
-	amino := codec.NewLegacyAmino()
-	pk := paramskeeper.NewKeeper(e.cdc, amino, keyParams, tkeyParams)
-	pk.Subspace(authtypes.ModuleName)
-	pk.Subspace(banktypes.ModuleName)
-	pk.Subspace(types.DefaultParamspace)
-	pk.Subspace(oracletypes.ModuleName)
-	sub := func(n string) paramstypes.Subspace { s, _ := pk.GetSubspace(n); return s }
-
-	maccPerms := map[string][]string{
-		types.ModuleName: {authtypes.Minter, authtypes.Burner},
-	}
-	e.acc = authkeeper.NewAccountKeeper(e.cdc, keyAcc, sub(authtypes.ModuleName), authtypes.ProtoBaseAccount, maccPerms)
-	e.acc.SetParams(e.rootCtx, authtypes.DefaultParams())
-	blocked := map[string]bool{authtypes.NewModuleAddress(types.ModuleName).String(): true}
-	e.bank = bankkeeper.NewBaseKeeper(e.cdc, e.bankKey, e.acc, sub(banktypes.ModuleName), blocked)
-	e.bank.SetParams(e.rootCtx, banktypes.Params{DefaultSendEnabled: true})
-	e.moduleAddr = authtypes.NewModuleAddress(types.ModuleName)
-
 	e.staking = NewFakeStaking()
 	e.oracle = &FakeOracle{prices: map[string]sdk.Dec{}, holders: map[string]sdk.Int{}}
-
-	var oracleForHub types.OracleKeeper = e.oracle
-	e.ok = oraclekeeper.NewKeeper(e.cdc, e.oracleKey, sub(oracletypes.ModuleName).WithKeyTable(oracletypes.ParamKeyTable()), e.staking)
-	if realOracle {
-		oracleForHub = e.ok
-	}
-	k := keeper.NewKeeper(e.cdc, e.hubKey, sub(types.DefaultParamspace), e.acc, e.bank, noSlashing{}, oracleForHub, sdk.DefaultPowerReduction)
-	k = k.SetStakingKeeper(e.staking)
-	e.k = k
-	e.ok = e.ok.SetMhub2Keeper(e.k)
-	e.msg = keeper.NewMsgServerImpl(e.k)
+	e.buildKeepers(true)
 
 	dp := types.DefaultParams()
 	e.params = *dp
@@ -349,4 +327,40 @@ func (e *Env) Flush() {
 		e.blockOpen = false
 		e.ctx = e.rootCtx
 	}
+}
+
+// buildKeepers constructs every keeper object over the existing stores.  Called once by NewEnv and again by a
+// "process restart" (world restart): whatever a keeper holds in memory is gone afterwards, the stores are not.
+func (e *Env) buildKeepers(first bool) {
+	amino := codec.NewLegacyAmino()
+	pk := paramskeeper.NewKeeper(e.cdc, amino, e.keyParams, e.tkeyParams)
+	pk.Subspace(authtypes.ModuleName)
+	pk.Subspace(banktypes.ModuleName)
+	pk.Subspace(types.DefaultParamspace)
+	pk.Subspace(oracletypes.ModuleName)
+	e.pk = pk
+	sub := func(n string) paramstypes.Subspace { s, _ := pk.GetSubspace(n); return s }
+
+	maccPerms := map[string][]string{
+		types.ModuleName: {authtypes.Minter, authtypes.Burner},
+	}
+	e.acc = authkeeper.NewAccountKeeper(e.cdc, e.keyAcc, sub(authtypes.ModuleName), authtypes.ProtoBaseAccount, maccPerms)
+	blocked := map[string]bool{authtypes.NewModuleAddress(types.ModuleName).String(): true}
+	e.bank = bankkeeper.NewBaseKeeper(e.cdc, e.bankKey, e.acc, sub(banktypes.ModuleName), blocked)
+	if first {
+		e.acc.SetParams(e.rootCtx, authtypes.DefaultParams())
+		e.bank.SetParams(e.rootCtx, banktypes.Params{DefaultSendEnabled: true})
+	}
+	e.moduleAddr = authtypes.NewModuleAddress(types.ModuleName)
+
+	var oracleForHub types.OracleKeeper = e.oracle
+	e.ok = oraclekeeper.NewKeeper(e.cdc, e.oracleKey, sub(oracletypes.ModuleName).WithKeyTable(oracletypes.ParamKeyTable()), e.staking)
+	if e.useRealOracle {
+		oracleForHub = e.ok
+	}
+	k := keeper.NewKeeper(e.cdc, e.hubKey, sub(types.DefaultParamspace), e.acc, e.bank, noSlashing{}, oracleForHub, sdk.DefaultPowerReduction)
+	k = k.SetStakingKeeper(e.staking)
+	e.k = k
+	e.ok = e.ok.SetMhub2Keeper(e.k)
+	e.msg = keeper.NewMsgServerImpl(e.k)
 }
